@@ -148,6 +148,14 @@ Theorem at_most_once_count c kn ops w : wf ops = true ->
   (length (results_of w (results (run c kn ops))) <= 1)%nat.
 Proof. intros W. apply results_of_le1. now apply at_most_once. Qed.
 
+Theorem no_surplus_send c kn ops : wf ops = true ->
+  no_surplus (model_surplus (run c kn ops) ops) = true.
+Proof.
+  intros W. unfold no_surplus, model_surplus. apply forallb_forall. intros [w n] Hi.
+  apply in_map_iff in Hi. destruct Hi as (w' & E & _). inversion E; subst. cbn [snd]. unfold surplus.
+  pose proof (at_most_once_count c kn ops w W). apply N.eqb_eq. lia.
+Qed.
+
 (* ---------- T3: an unanswered call is covered ---------- *)
 Definition covered (s : st) (w : N) : Prop :=
   In w (map fst (results s)) \/
